@@ -752,7 +752,29 @@ pub(crate) fn read_filter_block(
 	if location.size() == 0 {
 		return Err(Error::FilterBlockEmpty);
 	}
-	let buf = read_bytes(src, location)?;
+	let buf = read_bytes(Arc::clone(&src), location)?;
+
+	// The filter block is written with the same trailer as every other block
+	// (compression type + masked CRC32): verify it. A damaged filter would
+	// otherwise make point lookups miss keys that are present, or panic while
+	// the filter offsets are decoded.
+	let compress = read_bytes(
+		Arc::clone(&src),
+		&BlockHandle::new(location.offset() + location.size(), BLOCK_COMPRESS_LEN),
+	)?;
+	let cksum = read_bytes(
+		src,
+		&BlockHandle::new(
+			location.offset() + location.size() + BLOCK_COMPRESS_LEN,
+			BLOCK_CKSUM_LEN,
+		),
+	)?;
+	if !verify_table_block(&buf, compress[0], unmask(u32::decode_fixed(&cksum).unwrap())) {
+		return Err(Error::from(SSTableError::ChecksumVerificationFailed {
+			block_offset: location.offset() as u64,
+		}));
+	}
+
 	Ok(FilterBlockReader::new(buf, policy))
 }
 
